@@ -870,7 +870,7 @@ func crashGen(r *rand.Rand, n int, thorough bool) []Case {
 			if c%2 == 0 {
 				// … and one far above any staging-buffer size one might think of (64 KiB, 128 KiB, 256 KiB)
 				kvs = nil
-				n, sz := 5+r.Intn(4), 20000+r.Intn(25000)
+				n, sz := 6+r.Intn(3), 40000+r.Intn(20000) // at least 5 x 40000 + 65535 bytes: above 256 KiB
 				for j := 0; j < n; j++ {
 					l := sz + r.Intn(3000)
 					if j == 1+c%2 {
